@@ -245,7 +245,13 @@ class SymInt:
         return not r
 
     def __hash__(self):
-        return hash(self.concretize())
+        # Hashing a symbolic integer (a coordinate used as part of a dictionary key): a constant hash is
+        # always consistent, and the equality test that follows a hash hit is decided symbolically.
+        eng = E.cur()
+        if self.tag and eng is not None:
+            eng.tainted_decisions += 1
+            eng.path_notes.append(("coord-hash", self.tag))
+        return 0
 
     def __bool__(self):
         return self.__ne__(0)
